@@ -112,4 +112,12 @@ theorem Ad_inv (a : Fin 6 → ℝ) :
     (C01.SE3Mrp.toMatrix_inverse_left a) (C04.SE3Mrp.Ad_conj _) (C04.SE3Mrp.Ad_conj a)
 end SE3Mrp
 
+namespace SO3Dcm
+/-- **Ad_{X⁻¹} Ad_X = 1 on SO(3), DCM form, every orthonormal X** (Ad is the matrix itself) -/
+theorem Ad_inv (a : Fin 9 → ℝ) (h : (SO3Dcm.toMatrix.M_mat a).transpose * SO3Dcm.toMatrix.M_mat a = 1) :
+    SO3Dcm.Ad.M_mat (SO3Dcm.inverse.r_vec a) * SO3Dcm.Ad.M_mat a = 1 := by
+  rw [C04.SO3Dcm.Ad_spec, C04.SO3Dcm.Ad_spec]
+  exact C01.SO3Dcm.toMatrix_inverse_left a h
+end SO3Dcm
+
 end C04H
